@@ -415,6 +415,10 @@ func (fc *FnCtx) typeInv(x Term, t types.Type, alloc Term) Term {
 	if lo, hi, ok := intRange(t); ok {
 		return and(app("<=", lo, x), app("<=", x, hi))
 	}
+	if b, ok := t.Underlying().(*types.Basic); ok && b.Info()&types.IsString != 0 {
+		// strings that enter a function (parameters, loads, call results) are shorter than 2^40 bytes
+		return app("<=", app("slen", x), "1099511627776")
+	}
 	switch u := t.Underlying().(type) {
 	case *types.Pointer:
 		return and(app("<", x, alloc), implies(app("<", x, "0"), app("<", app("embroot", x), alloc)))
